@@ -81,6 +81,21 @@ def single_task_programs(tier):
                 ["scope", "S2", {}, [WAIT]], ["probe"], ["ntimeout", 5, [CP, CP]], ["probe"]]
         progs.append({"objects": {"g": ["gate"]}, "main": main, "tasks": {}, "env": envs[e],
                       "label": f"sequence prescope env={e}"})
+    # four levels: a shield that is not the direct parent of the cancelled scope
+    for shields in itertools.product((False, True), repeat=3):
+        if sum(shields) > 2:
+            continue
+        for pair in itertools.combinations(("S0", "S1", "S2", "S3"), 2):
+            for inner in ([WAIT], [CP, WAIT, CP]):
+                if tier == "quick" and inner[0] == CP and sum(shields) != 1:
+                    continue
+                s3 = ["scope", "S3", {"shield": shields[2]}, inner]
+                s2 = ["scope", "S2", {"shield": shields[1]}, [s3, CP]]
+                s1 = ["scope", "S1", {"shield": shields[0]}, [s2, CP]]
+                main = [["scope", "S0", {}, [s1, CP]], ["probe"], CP]
+                env = [["set", "g"]] + [["cancel", x] for x in pair]
+                progs.append({"objects": {"g": ["gate"]}, "main": main, "tasks": {}, "env": env,
+                              "label": f"deep shields={shields} cancel={pair} inner={len(inner)}"})
     return progs
 
 
